@@ -339,4 +339,10 @@ def run(ck, tier):
     from .. import ownership as _own2
     ck.rule('R11', 'no unsound memoisation (a caching decorator on a method, or on a function that returns a mutable container) in the modules this property rests on')
     ck.guard(_own2.rule_no_unsafe_memo, ck, cx, 'R11', ('pymodbus.framer', 'pymodbus.framer.socket_framer', 'pymodbus.framer.rtu_framer', 'pymodbus.framer.ascii_framer', 'pymodbus.framer.binary_framer', 'pymodbus.framer.tls_framer', 'pymodbus.utilities'), 'a decision of the receiver is taken from a value cached for other bytes')
+    from .. import strtypes as _st
+    ck.rule('R12', 'hexlify_packets, evaluated with the receive buffer on every reset / processing path outside any log-level guard, is total: what it joins is text')
+    ck.guard(_st.rule_join_total, ck, cx, 'R12', ('pymodbus.utilities.hexlify_packets',), 'an exception escapes the receive call although the frame is merely incomplete / over-long')
+    from ..share import import_findings as _imp3
+    ck.rule('R13', 'the RTU frame length oracle is a function of the frame bytes only (shared with C03 R3)')
+    _imp3(ck, 'C03', 'R13', ('R3',), 'the messages delivered depend on how the stream was cut into reads', detail_prefixes=('rtuFrameSize-shape', 'size-from-buffered-length', 'custom-size-override', 'fifo-size', 'mei-size-shape', 'base-size-shape'))
     return cx.idx
